@@ -412,7 +412,8 @@ func (ev *Eval) containerContents(obj ssa.Value, n int64, length *Term) *Term {
 			}
 			return &Term{K: KSeq, Args: parts}
 		}
-		return &Term{K: KSeq, Args: []*Term{{K: KStar, Args: []*Term{Elem(&Term{K: KZero})}, Name: "zero-filled", Loop: nil}}, Name: "make"}
+		// a make() that is never written: n zero elements
+		return &Term{K: KCall, Name: "zeros", Args: []*Term{length}}
 	}
 	allConst := true
 	for _, f := range firsts {
@@ -529,7 +530,7 @@ func (ev *Eval) Deref(t *Term) *Term {
 	if owner == nil {
 		return t
 	}
-	if r := owner.assemble(obj, nil, nil); r != nil {
+	if r := owner.loadCell(obj, nil, nil); r != nil && r.K != KZero {
 		return owner.Resolve(r)
 	}
 	return t
